@@ -16,7 +16,6 @@ concurrency cannot be encoded; the model's contract is compared with the real cl
 in concrete mode (``model_selftest``).
 """
 import os
-import tempfile
 
 import numpy as np
 
@@ -32,8 +31,9 @@ BOUNDS = {
              'Hdf5Storage, every prefix observed (contains, len, iter, bool); ThreadedStorage over PickleStorage: all '
              'sequences of 3 operations x every worker progress at every synchronisation point, max_queue_size 2; '
              'ThreadedStorage over Hdf5Storage and fault injection (the i-th disk operation raises): 3 operations',
-    'thorough': 'EventHandler: 5 operations; caches: 5 operations for Storage, 5 for PickleStorage / Hdf5Storage; '
-                'ThreadedStorage: 4 operations (PickleStorage, Hdf5Storage, fault injection)',
+    'thorough': 'EventHandler: 5 operations; caches: 5 operations incl. sub-caches for Storage; PickleStorage / Hdf5Storage: 5 '
+                'operations without sub-caches and 4 operations with sub-caches; ThreadedStorage over PickleStorage: 4 operations '
+                '(with sub-caches), over Hdf5Storage: 4 operations without and 3 with sub-caches; fault injection: 4 operations',
 }
 OUTSIDE = ('the real Worker thread (real threads, queue time-outs, deadlock freedom of close): NOT APPLICABLE, replaced by '
            'a contract model; bytes written by the C pickle module / real h5py in symbolic mode (h5py is modelled there); '
@@ -375,6 +375,19 @@ class _Driver:
                 pass
 
 
+def _part(ops, first, t):
+    """`first` = [[i0, k0], [i1, k1], ...]: at step t only the i_t-th of k_t contiguous parts of the alphabet is explored
+    by this case (the union over the cases is the whole alphabet: splitting is for parallelism only)"""
+    if first is None or t >= len(first):
+        return ops
+    i, k = first[t]
+    n = len(ops)
+    k = min(k, n)
+    if i >= k:
+        return []
+    return ops[(i * n) // k:((i + 1) * n) // k]
+
+
 class _NoDir:
 
     def __enter__(self):
@@ -390,10 +403,10 @@ def cache_case(ctx, storage, n_ops, first=None, with_sub=True):
         drv = _Driver(ctx, storage, td)
         try:
             for t in range(n_ops):
-                ops = drv.alphabet(with_sub, allow_close=True)
-                if t == 0 and first is not None:
-                    lo, hi = first
-                    ops = ops[lo:hi]
+                ops = _part(drv.alphabet(with_sub, allow_close=True), first, t)
+                if not ops:
+                    ctx.prove(True, 'empty part of the alphabet')
+                    break
                 op, ti, k = ops[choice(ctx, f'op{t}', len(ops))]
                 drv.apply(op, ti, k, t)
                 if drv.closed:
@@ -412,10 +425,9 @@ def threaded_case(ctx, storage, n_ops, first=None, fault=False, with_sub=True):
         W = drv.worker
         try:
             for t in range(n_ops):
-                ops = [o for o in drv.alphabet(with_sub and not fault, allow_close=True)]
-                if t == 0 and first is not None:
-                    lo, hi = first
-                    ops = ops[lo:hi]
+                ops = _part(drv.alphabet(with_sub and not fault, allow_close=True), first, t)
+                if not ops:
+                    break
                 op, ti, k = ops[choice(ctx, f'op{t}', len(ops))]
                 try:
                     drv.apply(op, ti, k, t)
@@ -508,11 +520,12 @@ def model_selftest(ctx):
 
 
 # ======================================================================================== cases
-def _slices(n, parts):
-    """split range(n) into `parts` contiguous slices (first-operation slices: parallelism only)"""
-    parts = max(1, min(parts, n))
-    cuts = [round(i * n / parts) for i in range(parts + 1)]
-    return [(cuts[i], cuts[i + 1]) for i in range(parts) if cuts[i + 1] > cuts[i]]
+def _parts(k0, k1=1):
+    return [[[i, k0], [j, k1]] if k1 > 1 else [[i, k0]] for i in range(k0) for j in range(k1)]
+
+
+def _tag(first):
+    return '.'.join(f'{i}of{k}' for i, k in first)
 
 
 def CASES(tier, seed):
@@ -520,18 +533,29 @@ def CASES(tier, seed):
     big = dict(max_paths=2000000, max_wall_s=1500 if thorough else 220, hard_timeout_s=1700 if thorough else 235, validate_paths=2)
     cases = [dict(name='models.selftest', fn='model_selftest', params={}, opts=dict(validate_paths=1))]
     cases.append(dict(name=f'events[n={5 if thorough else 4}]', fn='events_case', params=dict(n_ops=5 if thorough else 4), opts=dict(big)))
-    # alphabet of the first step: set/read/del/preload/short{a}/short{}/subcache/close/exit = 9 (8 without subcache)
-    n_cache = 5 if thorough else 4
-    for storage in ('Storage', 'PickleStorage', 'Hdf5Storage'):
-        for lo, hi in _slices(9, 9 if thorough else 5):
-            cases.append(dict(name=f'cache[{storage},n={n_cache},first={lo}:{hi}]', fn='cache_case',
-                              params=dict(storage=storage, n_ops=n_cache, first=[lo, hi]), opts=dict(big)))
-    n_thr = 4 if thorough else 3
-    for storage in ('PickleStorage', 'Hdf5Storage'):
-        for lo, hi in _slices(9, 9 if thorough else 3):
-            cases.append(dict(name=f'threaded[{storage},n={n_thr},first={lo}:{hi}]', fn='threaded_case',
-                              params=dict(storage=storage, n_ops=n_thr, first=[lo, hi]), opts=dict(big)))
-    for lo, hi in _slices(8, 8 if thorough else 2):
-        cases.append(dict(name=f'threaded-fault[PickleStorage,n={n_thr},first={lo}:{hi}]', fn='threaded_case',
-                          params=dict(storage='PickleStorage', n_ops=n_thr, first=[lo, hi], fault=True), opts=dict(big)))
+    # alphabet of the first step: set/read/del/preload/short{a}/short{}/subcache/close/exit = 9 (8 without sub-cache)
+
+    def add(kind, storage, n, with_sub, parts, fault=False):
+        fn = 'cache_case' if kind == 'cache' else 'threaded_case'
+        for first in parts:
+            params = dict(storage=storage, n_ops=n, first=first, with_sub=with_sub)
+            if fault:
+                params['fault'] = True
+            cases.append(dict(name=f"{kind}[{storage},n={n},{'sub' if with_sub else 'nosub'},part={_tag(first)}]", fn=fn, params=params, opts=dict(big)))
+
+    if not thorough:
+        for storage in ('Storage', 'PickleStorage', 'Hdf5Storage'):
+            add('cache', storage, 4, True, _parts(5))
+        for storage in ('PickleStorage', 'Hdf5Storage'):
+            add('threaded', storage, 3, True, _parts(3))
+        add('threaded-fault', 'PickleStorage', 3, False, _parts(4), fault=True)
+    else:
+        add('cache', 'Storage', 5, True, _parts(9, 4))
+        for storage in ('PickleStorage', 'Hdf5Storage'):
+            add('cache', storage, 5, False, _parts(8, 2))  # length 5 without sub-caches
+            add('cache', storage, 4, True, _parts(9))  # sub-caches: length 4
+        add('threaded', 'PickleStorage', 4, True, _parts(9, 3))
+        add('threaded', 'Hdf5Storage', 4, False, _parts(8, 2))
+        add('threaded', 'Hdf5Storage', 3, True, _parts(3))
+        add('threaded-fault', 'PickleStorage', 4, False, _parts(8, 4), fault=True)
     return cases
